@@ -442,12 +442,54 @@ class Canon:
         (ps, kwo, var), = sigs
         return None if var else (list(ps), list(kwo))
 
+    # -------------------------------------------------------------------------------------------------------- literal tables
+    def _with_tables(self, f, node):
+        """`for row in TABLE:` with TABLE a module-level name bound once to a literal tuple / list of at most 8 rows: the literal
+        is written in place of the name (the loop then is a loop over a literal table like any other)"""
+        key = id(f.module)
+        tabs = self._tables.get(key) if hasattr(self, "_tables") else None
+        if tabs is None:
+            if not hasattr(self, "_tables"):
+                self._tables = {}
+            tabs = {}
+            tree = getattr(f.module, "tree", None)
+            if tree is not None:
+                stores = {}
+                for x in ast.walk(tree):
+                    if isinstance(x, ast.Name) and isinstance(x.ctx, (ast.Store, ast.Del)):
+                        stores[x.id] = stores.get(x.id, 0) + 1
+                    elif isinstance(x, ast.Attribute) and isinstance(x.ctx, (ast.Store, ast.Del)):
+                        stores[x.attr] = stores.get(x.attr, 0) + 1
+                scopes = [("", tree.body)] + [(c.name, c.body) for c in tree.body if isinstance(c, ast.ClassDef)]
+                for owner, body in scopes:
+                    for st in body:
+                        if isinstance(st, ast.Assign) and len(st.targets) == 1 and isinstance(st.targets[0], ast.Name) and isinstance(st.value, (ast.Tuple, ast.List)) \
+                                and 1 <= len(st.value.elts) <= 8 and stores.get(st.targets[0].id, 0) == 1 and _is_pure(st.value) \
+                                and not any(isinstance(y, (ast.Call, ast.Lambda, ast.Starred)) for y in ast.walk(st.value)):
+                            tabs[(owner, st.targets[0].id)] = st.value
+            self._tables[key] = tabs
+        if not tabs:
+            return node
+        local = {x.id for x in ast.walk(node) if isinstance(x, ast.Name) and isinstance(x.ctx, (ast.Store, ast.Del))} | {a.arg for a in ast.walk(node) if isinstance(a, ast.arg)}
+        cname = f.cls.name if f.cls is not None else None
+        for lp in ast.walk(node):
+            if isinstance(lp, (ast.For, ast.comprehension)):
+                it = lp.iter
+                lit = None
+                if isinstance(it, ast.Name) and it.id not in local:
+                    lit = tabs.get(("", it.id))
+                # (a class-level table read through self / cls may be overridden in a subclass: it stays a name)
+                if lit is not None:
+                    lp.iter = copy.deepcopy(lit)
+        return node
+
     # -------------------------------------------------------------------------------------------------------- inlining
     def _prepared(self, h, depth):
         """helper body with nested helpers written out and early exits turned into if/else; locals made unique"""
         node = copy.deepcopy(h.node)
-        body = _strip_doc(node.body)
-        body = self._inline_block(h, body, depth + 1)
+        node.body = _strip_doc(node.body)
+        node = _Small().visit(self._with_tables(h, node))   # (a loop over a literal table is the body once per row: its returns then are in tail position)
+        body = self._inline_block(h, node.body, depth + 1)
         bl = _Blocks()
         bl.try_else = True
         body = bl.block(body, "func")
@@ -765,6 +807,7 @@ class Canon:
         node.decorator_list = []
         self._k = {}
         node.body = _strip_doc(node.body)
+        node = self._with_tables(f, node)
         node = _Small().visit(node)   # (tuple assignments from a literal table, f(*(a, b)), ... are plain statements before helpers are looked at)
         body = node.body
         if inline:
